@@ -16,6 +16,7 @@ func init() {
 		NotDecided:  "TODO",
 		Assumptions: trustedBase,
 		Run: func(m *Model, s *Sink) {
+			m.RunDirMode(s, "R-DIRMODE")
 			m.RunLexMode(s, "R-LEXMODE")
 			m.RunTextFlow(s, "R-TEXT")
 			m.RunPrefixKW(s, "R-PREFIXKW")
